@@ -9,7 +9,7 @@ BIN="$(echo "$ID" | tr 'A-Z' 'a-z')"
 S="/tmp/verif-mut/$ID-$$"
 mkdir -p "$S"
 trap 'git -C /repo worktree remove --force "$S/repo" >/dev/null 2>&1; rm -rf "$S"' EXIT
-git -C /repo worktree add --detach "$S/repo" HEAD >/dev/null 2>&1 || { echo "cannot create worktree"; exit 2; }
+git -C /repo worktree add --detach "$S/repo" "${MUTANT_BASE:-HEAD}" >/dev/null 2>&1 || { echo "cannot create worktree"; exit 2; }
 if ! git -C "$S/repo" apply "$PATCH"; then echo "MUTANT: patch does not apply"; exit 2; fi
 if [ "${MUTANT_SUITE:-0}" = 1 ]; then
 	# the repository's own suite must still pass with the change applied
